@@ -238,4 +238,22 @@ CHECKS = {
         "assumptions": ["flock is per open file description, so goroutines with separate descriptors contend like separate processes"],
         "selftest": False,
     },
+    "C08": {
+        "level": "exploration",
+        "level_text": "seeded sequences of hostile control-service input (27 kinds: unknown commands, broken/deep JSON, every built-in command "
+                      "with a field of every wrong JSON type, work subcommands with missing/extra/mistyped arguments, unknown, disk-only and "
+                      "path-character unit IDs, over-long and unterminated lines, binary, disconnects mid-line and mid-submit) from 4 concurrent "
+                      "sessions (unix and tcp) against a node with units in several states; a line that is not a valid command must be "
+                      "answered with ERROR; after every input the same session and a fresh one must answer status / work list / ping",
+        "level_note": "sampling of an unbounded input space; process crash or wedge (watchdog + goroutine dump) is the violation",
+        "quick": {"runs": 480, "per_proc": 30},
+        "thorough": {"runs": 40000, "per_proc": 100},
+        "hang_is_violation": True,
+        "proc_timeout": 300,
+        "rule": "one run = 5-45 inputs spread over 4 clients; distinct_nontrivial counts distinct sets of input kinds",
+        "real": ["pkg/controlsvc (session loop, all built-in commands)", "pkg/workceptor control commands and unit index", "pkg/netceptor (ping)"],
+        "stub": ["command-runner process (stub)", "unix/tcp sockets (simulated pipes reporting the right network)", "reload without a config file"],
+        "assumptions": ["path-character unit IDs are limited to two levels of '..' so that the check cannot delete its own scratch root"],
+        "selftest": False,
+    },
 }
